@@ -513,6 +513,25 @@ class SymFloat(metaclass=_FloatMeta):
         return _float(x)
 
 
+class _TupleMeta(type):
+    def __instancecheck__(cls, obj):
+        return _isinstance(obj, tuple)
+
+    def __subclasscheck__(cls, sub):
+        return issubclass(sub, tuple)
+
+
+class SymTuple(metaclass=_TupleMeta):
+    """tuple() replacement: tuples holding symbolic channels become SymRGB (single-fork equality)."""
+    __name__ = "tuple"
+
+    def __new__(cls, it=()):
+        items = list(it)
+        if any(_isinstance(x, SNum) for x in items):
+            return SymRGB(items)
+        return tuple(items)
+
+
 def smax(*args, **kw):
     if kw:
         return _max(*args, **kw)
@@ -700,11 +719,11 @@ class TokenAwareNumRe:
 
 
 def srange_factory(cap_table):
-    """range() replacement capping constant trip counts to a stated bound.
+    """range() replacement truncating constant trip counts to a stated bound.
 
-    cap_table maps the original constant trip count -> allowed iterations.  The
-    iteration after the cap aborts the path with reason 'bound' (recorded, so the
-    evidence can state how many paths were cut at the bound).
+    cap_table maps the original constant trip count -> number of iterations executed.  This is a
+    bounded-unrolling MODEL of the loop (the loop runs K instead of N times), stated as a bound in the
+    evidence of every check that uses it.
     """
 
     def srange(*a):
@@ -713,14 +732,8 @@ def srange_factory(cap_table):
         cap = cap_table.get(n)
         if cap is None or cap >= n:
             return r
-
-        def gen():
-            for i, v in enumerate(r):
-                if i >= cap:
-                    raise PathAbort("bound:range(%d)>%d" % (n, cap))
-                yield v
-
-        return gen()
+        cur().stats["cut_bound"] += 1
+        return r[:cap]
 
     return srange
 
@@ -731,6 +744,7 @@ def inject(module, caps=None, extra=None):
     module.float = SymFloat
     module.max = smax
     module.min = smin
+    module.tuple = SymTuple
     if hasattr(module, "math"):
         module.math = SymMath()
     if caps:
@@ -823,6 +837,8 @@ class Engine:
         self.stats = dict(paths=0, feas_queries=0, feas_time=0.0, feas_unknown=0, cut_bound=0,
                           aborted=0, forks=0)
         self.ufs = {}
+        self._shard_depth = None
+        self._shard_prefixes = []
         self._reset(())
 
     # -- per path state ----------------------------------------------------
@@ -961,6 +977,9 @@ class Engine:
         if pos < len(self.prefix):
             d = self.prefix[pos]
         else:
+            if self._shard_depth is not None and pos >= self._shard_depth:
+                self._shard_prefixes.append(tuple(self.decisions))
+                raise PathAbort("shard")
             if self.deadline and time.time() > self.deadline:
                 raise Budget("deadline")
             hint = self._model_says(c)
@@ -1021,7 +1040,8 @@ class Engine:
                 r.frac = (n / bt, d)
             return r
         # symbolic denominator: python raises ZeroDivisionError when it is 0
-        if self.branch(b.real() == 0):
+        zero = (b.frac[0] == 0) if b.frac else (b.real() == 0)
+        if self.branch(zero):
             raise ZeroDivisionError("float division by zero")
         an, ad = a.frac if a.frac else (a.real(), None)
         bn, bd = b.frac if b.frac else (b.real(), None)
@@ -1334,10 +1354,44 @@ class Engine:
         return v
 
     # -- exploration ----------------------------------------------------------------
-    def explore(self, fn, on_path=None):
-        """Run fn() on every feasible path.  Yields PathResult objects."""
+    def shard_prefixes(self, fn, depth):
+        """Phase 1 of sharding: the feasible decision prefixes of length <= depth (deterministic)."""
+        global CUR
+        self._shard_depth = depth
+        self._shard_prefixes = []
+        work = [()]
+        try:
+            while work:
+                prefix = work.pop()
+                self._reset(prefix)
+                prev = CUR
+                CUR = self
+                try:
+                    fn()
+                    self._shard_prefixes.append(tuple(self.decisions))   # finished before the depth
+                except PathAbort:
+                    pass
+                except EngineSignal:
+                    raise
+                except Exception:
+                    self._shard_prefixes.append(tuple(self.decisions))
+                finally:
+                    CUR = prev
+                work.extend(self.alts)
+        finally:
+            self._shard_depth = None
+        return sorted(set(self._shard_prefixes))
+
+    def explore(self, fn, on_path=None, shard=None):
+        """Run fn() on every feasible path.  shard=(i, n, depth) explores only the i-th of n slices of the
+        decision-prefix set at the given depth (the slices partition the path set)."""
         global CUR
         work = [()]
+        if shard is not None:
+            i, n, depth = shard
+            allp = self.shard_prefixes(fn, depth)
+            work = list(allp[i::n])
+            self.stats["shard"] = "%d/%d of %d prefixes at depth %d" % (i, n, len(allp), depth)
         results = []
         while work:
             prefix = work.pop()
